@@ -253,7 +253,17 @@ class Translator:
                 self.roles[n.target.elts[1].id] = 'val'
 
     def cond(self, node):
-        s = _src(node, self.text)
+        if isinstance(node, ast.UnaryOp) and isinstance(node.op, ast.Not):
+            # `not X` for any X of the vocabulary (the listed `not ...` forms are found first by their own entries)
+            s0 = _src(node, self.text)
+            if not any(re.search(rx, s0) for rx, _ in CONDS):
+                inner = self.cond(node.operand)
+                if inner == 'COther':
+                    return 'COther'
+                return inner[len('CNot ('):-1] if inner.startswith('CNot (') else 'CNot (%s)' % inner
+        return self.cond_text(_src(node, self.text))
+
+    def cond_text(self, s):
         for rx, out in CONDS:
             m = re.search(rx, s)
             if m:
@@ -267,9 +277,32 @@ class Translator:
         self.unknown.append('if ' + s)
         return 'COther'
 
+    @staticmethod
+    def _guard(st):
+        """`if not P: return` (nothing else) -> the node P"""
+        if (isinstance(st, ast.If) and not st.orelse and len(st.body) == 1 and isinstance(st.body[0], ast.Return)
+                and st.body[0].value is None and isinstance(st.test, ast.UnaryOp) and isinstance(st.test.op, ast.Not)):
+            return st.test.operand
+        return None
+
     def block(self, stmts, top=False):
         out = []
         for i, st in enumerate(stmts):
+            if top and self._guard(st) is not None and i + 1 < len(stmts) and self._guard(stmts[i + 1]) is not None:
+                # two guard clauses in a row: `if not P: return; if not Q: return; rest` == `if P and Q: rest`
+                both = '%s and %s' % (_src(self._guard(st), self.text), _src(self._guard(stmts[i + 1]), self.text))
+                n_unknown = len(self.unknown)
+                c = self.cond_text(both)
+                if c != 'COther':
+                    rest = self.block(stmts[i + 2:], top=True)
+                    if self.in_init and 'self.iter_response' in both:
+                        if c != 'CFlag FStreaming':
+                            raise Unsupported('condition reading self.iter_response: %s' % both)
+                        rest = 'Seq (Act ReadIterResponse) (%s)' % rest
+                    if rest != 'Skip':
+                        out.append('If (%s) (%s) (Skip)' % (c, rest))
+                    break
+                del self.unknown[n_unknown:]
             if (top and isinstance(st, ast.If) and not st.orelse and len(st.body) == 1
                     and isinstance(st.body[0], ast.Return) and st.body[0].value is None and stmts[i + 1:]):
                 # guard clause at the top level of a function returning nothing:
@@ -324,6 +357,8 @@ class Translator:
                 if c != 'CFlag FStreaming':
                     raise Unsupported('condition reading self.iter_response: %s' % _src(st.test, self.text))
                 a = 'Seq (Act ReadIterResponse) (%s)' % a
+            if c.startswith('CNot (') and a != 'Skip' and b != 'Skip':
+                c, a, b = c[len('CNot ('):-1], b, a          # if not c: A else: B   ==   if c: B else: A
             if c == 'CTrue':
                 return None if a == 'Skip' else a
             if a == 'Skip' and b == 'Skip':
